@@ -12,6 +12,7 @@
  *
  * env: VP_MODS="A,B"  VP_HOOKS="A:esx,B:x"  VP_FLAGS="A:R,B:PCUS" (R replace P persist C denyctx U denypub S denysub)
  *      VP_CTXPERSIST=0|1  VP_CAP=<mailbox capacity> */
+#define VP_TLS __thread
 #include "gw.h"
 #include "vp_alloc.h"
 #include <sys/epoll.h>
@@ -28,25 +29,27 @@
 static int nmods;
 static char LN[NM][8];                 /* logical names as in the spec ("A", "B", ...) */
 static char RN[NM][16];                /* real names registered with the library (chosen so that the table order is LN order) */
-static m_mod_t *H[NM];
+static VP_TLS m_mod_t *H[NM];
+static VP_TLS int hcnt[NM];                   /* references the program holds on H[i] */
+static VP_TLS m_evt_t *HELD[8]; static VP_TLS int nheld;   /* events retained by the program */
 static char hooks[NM][8], flags[NM][16];
 static int ctx_persist, cap = 2, maxpay = 1, nkeys = 1;
 
 /* ---- payloads ---- */
 #define NP 8
-static struct { void *ptr; int watch; int autofree; int live; } PAY[NP + 1];
+static VP_TLS struct { void *ptr; int watch; int autofree; int live; } PAY[NP + 1];
 
-static int errno_to_leave;
+static VP_TLS int errno_to_leave;
 /* ---- cursor ---- */
-static const int *P; static int PN, cursor, cur_state, depth, failed;
-static int last_ret;
-static int in_program;
+static VP_TLS const int *P; static VP_TLS int PN, cursor, cur_state, depth, failed;
+static VP_TLS int last_ret;
+static VP_TLS int in_program;
 
 /* ---- descriptor ledger (library-opened descriptors) ---- */
 #define MAXFD 1024
-static unsigned char fd_lib[MAXFD];     /* 1 = opened by the library and still open */
-static int pipe_peer[MAXFD];            /* write end -> read end */
-static int ufd_r_[4] = {-1, -1, -1, -1};
+static VP_TLS unsigned char fd_lib[MAXFD];     /* 1 = opened by the library and still open */
+static VP_TLS int pipe_peer[MAXFD];            /* write end -> read end */
+static VP_TLS int ufd_r_[4] = {-1, -1, -1, -1};
 #define ufd_r ufd_r_
 static int lib_fds_open(void) { int n = 0; for (int i = 0; i < MAXFD; i++) n += fd_lib[i]; return n; }
 
@@ -66,7 +69,7 @@ int __wrap_epoll_create1(int fl) {
     if (r >= 0 && in_program && r < MAXFD) fd_lib[r] = 1;
     return r;
 }
-static int double_close;
+static VP_TLS int double_close;
 int __wrap_close(int fd) {
     if (in_program && fd >= 0 && fd < MAXFD) {
         if (fd_lib[fd]) { fd_lib[fd] = 0; pipe_peer[fd] = 0; }
@@ -94,7 +97,7 @@ int __wrap_timerfd_create(int clockid, int flags) {
     if (fd >= 0 && fd < MAXFD) fd_lib[fd] = 1;
     return fd;
 }
-static unsigned long long last_settime_ns;
+static VP_TLS unsigned long long last_settime_ns;
 int __real_timerfd_settime(int fd, int flags, const struct itimerspec *nv, struct itimerspec *ov);
 int __wrap_timerfd_settime(int fd, int flags, const struct itimerspec *nv, struct itimerspec *ov) {
     if (!in_program) return __real_timerfd_settime(fd, flags, nv, ov);
@@ -104,16 +107,16 @@ int __wrap_timerfd_settime(int fd, int flags, const struct itimerspec *nv, struc
 
 /* ---- user descriptors (fd sources): key -> pipe owned by the program ---- */
 #define NKEY 3
-static int ufd_w[NKEY + 1];
+static VP_TLS int ufd_w[NKEY + 1];
 static void ufd_open(int k) { int p[2]; if (__real_pipe(p) == 0) { ufd_r[k] = p[0]; ufd_w[k] = p[1]; fcntl(p[0], F_SETFL, O_NONBLOCK); fcntl(p[1], F_SETFL, O_NONBLOCK); } }
 static int ufd_is_open(int k) { return ufd_r[k] >= 0; }
 static const unsigned long long TMR_NS[NKEY + 1] = {0, 1000000ULL, 5000000000ULL, 5000000001ULL};
 
 /* ---- poll control ---- */
-static struct { int m; char kind[8]; int key; } batch[8];
-static int nbatch, batch_armed;
-static char ready_seen[160];
-static int poll_calls;
+static VP_TLS struct { int m; char kind[8]; int key; } batch[8];
+static VP_TLS int nbatch, batch_armed;
+static VP_TLS char ready_seen[160];
+static VP_TLS int poll_calls;
 static int midx(const char *real) { if (!real) return -1; for (int i = 0; i < nmods; i++) if (!strcmp(RN[i], real)) return i; return -1; }
 
 #define SRC_INTERNAL (1 << 7)
@@ -188,6 +191,8 @@ static int mailbox_len(m_mod_t *h) {
     return pending / (int)sizeof(void *);
 }
 
+static VP_TLS char evdesc[1024];
+static int evdesc_cb(void *up, void *data);
 static void project(char *buf, size_t n, const char *topdesc) {
     size_t k = 0;
     m_ctx_t *c = m_ctx();
@@ -214,6 +219,15 @@ static void project(char *buf, size_t n, const char *topdesc) {
     }
     k += snprintf(buf + k, n - k, "|ufd:");
     for (int key = 1; key <= nkeys; key++) k += snprintf(buf + k, n - k, "%c", ufd_is_open(key) ? 'o' : 'c');
+    k += snprintf(buf + k, n - k, "|held:");
+    {
+        char save[sizeof evdesc];
+        memcpy(save, evdesc, sizeof save);
+        evdesc[0] = 0;
+        for (int q = 0; q < nheld; q++) evdesc_cb(NULL, HELD[q]);
+        k += snprintf(buf + k, n - k, "%s", evdesc[0] ? evdesc : "_");
+        memcpy(evdesc, save, sizeof save);
+    }
     k += snprintf(buf + k, n - k, "|pay:");
     for (int p = 1; p <= maxpay; p++) k += snprintf(buf + k, n - k, "%c", !PAY[p].live ? 'u' : vp_watch_freed[PAY[p].watch] ? (vp_watch_freed[PAY[p].watch] > 1 ? '2' : 'f') : 'l');
     snprintf(buf + k, n - k, "|d%d|%s", depth, topdesc);
@@ -277,7 +291,6 @@ static const char *logical_topic(const char *t, char *buf, size_t n) {
 }
 static int pay_id(const void *p) { if (!p) return 0; for (int i = 1; i <= NP; i++) if (PAY[i].ptr == p && PAY[i].live) return i; return 99; }
 
-static char evdesc[1024];
 static int evdesc_cb(void *up, void *data) {
     m_evt_t *evt = data;
     size_t k = strlen(evdesc);
@@ -297,7 +310,7 @@ static int evdesc_cb(void *up, void *data) {
     return 0;
 }
 
-static const m_queue_t *cur_evts[16];
+static VP_TLS const m_queue_t *cur_evts[16];
 static bool enter_cb(m_mod_t *self, const char *kind, const m_queue_t *evts) {
     if (failed) return true;
     cur_evts[depth + 1] = evts;
@@ -331,14 +344,62 @@ static void cb_stop(m_mod_t *self) { enter_cb(self, "stop", NULL); }
 static void cb_evt(m_mod_t *self, const m_queue_t *const evts) { enter_cb(self, "evt0", evts); }
 static void cb_evt1(m_mod_t *self, const m_queue_t *const evts) { enter_cb(self, "evt1", evts); }
 static void cb_evt2(m_mod_t *self, const m_queue_t *const evts) { enter_cb(self, "evt2", evts); }
-static int nth_idx; static m_evt_t *nth_evt;
+static VP_TLS int nth_idx; static VP_TLS m_evt_t *nth_evt;
 static int nth_cb(void *up, void *data) { if (--nth_idx == 0) { nth_evt = data; return 1; } return 0; }
+
+/* ---- C14: module operations attempted from a thread that does not own the module's context ---- */
+typedef struct { const char *op; m_mod_t *mod; int own; long ret; } foreign_t;
+static void f_evt(m_mod_t *self, const m_queue_t *const e) {}
+static void *foreign_thread(void *arg) {
+    foreign_t *f = arg;
+    m_mod_t *mine = NULL, *mod = f->mod;
+    static int dummy;
+    if (f->own) { m_mod_hook_t hk = {.on_evt = f_evt}; m_ctx_register("foreign", M_CTX_PERSIST, NULL); m_mod_register("fmod", &mine, &hk, 0, NULL); }
+    const char *op = f->op;
+    long r = -9999;
+    if (!strcmp(op, "start")) r = m_mod_start(mod);
+    else if (!strcmp(op, "pause")) r = m_mod_pause(mod);
+    else if (!strcmp(op, "resume")) r = m_mod_resume(mod);
+    else if (!strcmp(op, "stop")) r = m_mod_stop(mod);
+    else if (!strcmp(op, "deregister")) { m_mod_t *tmp = mod; r = m_mod_deregister(&tmp); }
+    else if (!strcmp(op, "subscribe")) r = m_mod_ps_subscribe(mod, "t1", 0, NULL);
+    else if (!strcmp(op, "unsubscribe")) r = m_mod_ps_unsubscribe(mod, "t1");
+    else if (!strcmp(op, "tell")) r = m_mod_ps_tell(mod, mod, &dummy, 0);
+    else if (!strcmp(op, "publish")) r = m_mod_ps_publish(mod, "t1", &dummy, 0);
+    else if (!strcmp(op, "pill")) r = m_mod_ps_poisonpill(mod, mod);
+    else if (!strcmp(op, "become")) r = m_mod_become(mod, f_evt);
+    else if (!strcmp(op, "unbecome")) r = m_mod_unbecome(mod);
+    else if (!strcmp(op, "unstash")) r = m_mod_unstash(mod, 1);
+    else if (!strcmp(op, "batchsize")) r = m_mod_set_batch_size(mod, 2);
+    else if (!strcmp(op, "batchtimeout")) r = m_mod_set_batch_timeout(mod, 1000000);
+    else if (!strcmp(op, "tokenbucket")) r = m_mod_set_tokenbucket(mod, 1, 1);
+    else if (!strcmp(op, "fdreg")) r = m_mod_src_register_fd(mod, 0, 0, NULL);
+    else if (!strcmp(op, "fddereg")) r = m_mod_src_deregister_fd(mod, 0);
+    else if (!strcmp(op, "srclen")) r = m_mod_src_len(mod, M_SRC_TYPE_END);
+    else if (!strcmp(op, "stats")) { m_mod_stats_t st; r = m_mod_stats(mod, &st); }
+    else if (!strcmp(op, "dump")) r = m_mod_dump(mod);
+    else if (!strcmp(op, "log")) r = m_mod_log(mod, "x");
+    else if (!strcmp(op, "bind")) r = mine ? m_mod_bind(mine, mod) : m_mod_bind(mod, mod);
+    else if (!strcmp(op, "tellforeign")) r = mine ? m_mod_ps_tell(mine, mod, &dummy, 0) : -9998;   /* my module addresses a module of another context */
+    f->ret = r;
+    if (f->own) { m_mod_deregister(&mine); m_ctx_deregister(); }
+    return NULL;
+}
+static long foreign_call(const char *op, m_mod_t *mod, int own) {
+    foreign_t f = {op, mod, own, 0};
+    pthread_t th;
+    int save = in_program;
+    pthread_create(&th, NULL, foreign_thread, &f);
+    pthread_join(th, NULL);
+    in_program = save;
+    return f.ret == -EPERM || f.ret == -EACCES ? -13 : f.ret;
+}
 
 /* ---- user actions ---- */
 static int lidx(const char *ln) { for (int i = 0; i < nmods; i++) if (!strcmp(LN[i], ln)) return i; return -1; }
-static int norm(long r, int keep_eexist) { if (r >= 0) return (int)r; if (keep_eexist && r == -EEXIST) return -17; if (r == -EAGAIN) return -11; return -1; }
+static int norm(long r, int keep_eexist) { if (r >= 0) return (int)r; if (keep_eexist == 3) return r == -13 ? -13 : -1; if (keep_eexist && r == -EEXIST) return -17; if (r == -EAGAIN) return -11; return -1; }
 /* a send is prepared with a fresh payload; it replaces the id's previous payload only if the library accepted the call */
-static struct { void *ptr; int watch; int autofree; int live; } NEWPAY; static int newpay_id;
+static VP_TLS struct { void *ptr; int watch; int autofree; int live; } NEWPAY; static VP_TLS int newpay_id;
 static void *new_payload(int p, int autofree) {
     NEWPAY.ptr = vp_user_alloc(16);
     NEWPAY.watch = vp_watch(NEWPAY.ptr);
@@ -367,7 +428,7 @@ static m_mod_flags mflags_i(int i, int which) {
 }
 static m_mod_flags mflags(int i) { return mflags_i(i, 1); }
 
-static int is_env_action(const char *a) { return !strcmp(a, "TbTick") || !strcmp(a, "BtFire") || !strcmp(a, "TickFire") || !strcmp(a, "FdReady") || !strcmp(a, "FdDrain") || !strcmp(a, "FdReopen") || !strcmp(a, "TmrFire") || !strcmp(a, "SetErrno"); }
+static int is_env_action(const char *a) { return !strcmp(a, "RefMod") || !strcmp(a, "DropRef") || !strcmp(a, "RetainEvt") || !strcmp(a, "ReleaseEvt") || !strcmp(a, "FdHup") || !strcmp(a, "TbTick") || !strcmp(a, "BtFire") || !strcmp(a, "TickFire") || !strcmp(a, "FdReady") || !strcmp(a, "FdDrain") || !strcmp(a, "FdReopen") || !strcmp(a, "TmrFire") || !strcmp(a, "SetErrno"); }
 static void exec_action(gw_edge *e) {
     const char *a = e->act;
     char tb[64];
@@ -423,15 +484,33 @@ static void exec_action(gw_edge *e) {
         if (strchr(hooks[m], 'x')) hk.on_stop = cb_stop;
         m_mod_t *old = H[m], *nw = NULL;
         r = m_mod_register(RN[m], &nw, &hk, mflags_i(m, (int)e->args[1]), NULL);
-        if (r == 0) { H[m] = nw; if (old) m_mem_unref(old); }       /* replaced: the program drops its reference to the old module */
+        if (r == 0) { H[m] = nw; for (; old && hcnt[m] > 0; hcnt[m]--) m_mem_unref(old); hcnt[m] = 1; }   /* replaced: the program drops its references to the old module */
         keep = 1;
     }
-    else if (!strcmp(a, "ModDeregister")) r = m_mod_deregister(&H[m]);
+    else if (!strcmp(a, "ModDeregister")) {
+        m_mod_t *tmp = H[m];
+        r = m_mod_deregister(&tmp);
+        if (!tmp && H[m]) { if (--hcnt[m] == 0) H[m] = NULL; }     /* the library consumed one of our references */
+    }
+    else if (!strcmp(a, "ForeignCall")) { r = foreign_call(e->sargs[0], H[lidx(e->sargs[1])], (int)e->args[2]); keep = 3; }
+    else if (!strcmp(a, "ForeignTell")) { r = foreign_call("tellforeign", H[m], 1); keep = 3; }
+    else if (!strcmp(a, "RefMod")) { m_mem_ref(H[m]); hcnt[m]++; r = 0; }
+    else if (!strcmp(a, "RetainEvt")) {
+        nth_idx = (int)e->args[0]; nth_evt = NULL;
+        if (cur_evts[depth]) m_queue_iterate(cur_evts[depth], nth_cb, NULL);
+        if (nth_evt && nheld < 8) HELD[nheld++] = m_mem_ref(nth_evt);
+        r = nth_evt ? 0 : -1;
+    }
+    else if (!strcmp(a, "ReleaseEvt")) {
+        int j = (int)e->args[0] - 1;
+        r = -1;
+        if (j >= 0 && j < nheld) { m_mem_unref(HELD[j]); for (int q = j; q + 1 < nheld; q++) HELD[q] = HELD[q + 1]; nheld--; r = 0; }
+    }
     else if (!strcmp(a, "ModStart")) r = m_mod_start(H[m]);
     else if (!strcmp(a, "ModPause")) r = m_mod_pause(H[m]);
     else if (!strcmp(a, "ModResume")) r = m_mod_resume(H[m]);
     else if (!strcmp(a, "ModStop")) r = m_mod_stop(H[m]);
-    else if (!strcmp(a, "DropRef")) { m_mem_unref(H[m]); H[m] = NULL; r = 0; }
+    else if (!strcmp(a, "DropRef")) { m_mem_unref(H[m]); if (--hcnt[m] == 0) H[m] = NULL; r = 0; }
     else if (!strcmp(a, "Tell")) { int to = lidx(e->sargs[1]); int p = (int)e->args[2], au = (int)e->args[3]; r = m_mod_ps_tell(H[m], H[to], new_payload(p, au), au ? M_PS_AUTOFREE : 0); }
     else if (!strcmp(a, "Publish")) { int p = (int)e->args[2], au = (int)e->args[3]; r = m_mod_ps_publish(H[m], real_topic(e->sargs[1], tb, sizeof tb), new_payload(p, au), au ? M_PS_AUTOFREE : 0); }
     else if (!strcmp(a, "PublishSys")) { static int dummy; r = m_mod_ps_publish(H[m], "LIBMODULE_ANYTHING", &dummy, 0); }
@@ -443,7 +522,12 @@ static void exec_action(gw_edge *e) {
         const char *tag = NULL;
         for (unsigned i = 0; i < sizeof tags / sizeof *tags; i++) if (!strcmp(tags[i], e->sargs[1])) tag = tags[i];
         m_src_flags pf = e->sargs[2][0] == 'L' ? M_SRC_PRIO_LOW : e->sargs[2][0] == 'H' ? M_SRC_PRIO_HIGH : M_SRC_PRIO_NORM;
-        r = m_mod_ps_subscribe(H[m], real_topic(e->sargs[1], tb, sizeof tb), M_SRC_DUP | pf, tag);
+        if (e->nargs > 3 && e->args[3]) pf |= M_SRC_ONESHOT;
+        /* M_SRC_DUP: the library keeps its own copy of the topic; ours is scribbled over and released right after the call */
+        char *scratch = strdup(real_topic(e->sargs[1], tb, sizeof tb));
+        r = m_mod_ps_subscribe(H[m], scratch, M_SRC_DUP | pf, tag);
+        memset(scratch, '#', strlen(scratch));
+        free(scratch);
     }
     else if (!strcmp(a, "SrcRegister") || !strcmp(a, "SrcDeregister")) {
         int reg = a[3] == 'R';
@@ -463,8 +547,9 @@ static void exec_action(gw_edge *e) {
         keep = 1;
     }
     else if (!strcmp(a, "FdReady")) { char x = 'x'; r = __real_write(ufd_w[e->args[0]], &x, 1) == 1 ? 0 : -1; }
+    else if (!strcmp(a, "FdHup")) { char x = 'x'; __real_write(ufd_w[e->args[0]], &x, 1); __real_close(ufd_w[e->args[0]]); ufd_w[e->args[0]] = -1; r = 0; }
     else if (!strcmp(a, "FdDrain")) { char buf[64]; while (read(ufd_r[e->args[0]], buf, sizeof buf) > 0); r = 0; }
-    else if (!strcmp(a, "FdReopen")) { __real_close(ufd_w[e->args[0]]); ufd_open((int)e->args[0]); r = 0; }
+    else if (!strcmp(a, "FdReopen")) { if (ufd_w[e->args[0]] >= 0) __real_close(ufd_w[e->args[0]]); ufd_open((int)e->args[0]); r = 0; }
     else if (!strcmp(a, "TmrFire")) {
         /* find the (virtual) timer descriptor of that source and make it expire */
         int key = (int)e->args[1];
@@ -534,7 +619,7 @@ static int gw_is_nontrivial(const int *prog, int n) {
     return d;
 }
 static int is_clean(int s) { return !strncmp(gw_states[s].proj, "ctx:none", 8) && !strstr(gw_states[s].proj, ":zombie:") && !strstr(gw_states[s].proj, ":idle:") &&
-                                    !strstr(gw_states[s].proj, ":running:") && !strstr(gw_states[s].proj, ":paused:") && !strstr(gw_states[s].proj, ":stopped:") && strstr(gw_states[s].proj, "|d0|-"); }
+                                    !strstr(gw_states[s].proj, ":running:") && !strstr(gw_states[s].proj, ":paused:") && !strstr(gw_states[s].proj, ":stopped:") && strstr(gw_states[s].proj, "|held:_|") && strstr(gw_states[s].proj, "|d0|-"); }
 
 /* canned set-up (Core.tla InitOf): context registered, all modules registered, first dispatch (loop started) */
 static const char *setup_name = "";
@@ -548,24 +633,26 @@ static void do_setup(void) {
         if (strchr(hooks[m], 's')) hk.on_start = cb_start;
         if (strchr(hooks[m], 'x')) hk.on_stop = cb_stop;
         m_mod_register(RN[m], &H[m], &hk, mflags(m), NULL);
+        hcnt[m] = 1;
     }
     batch_armed = 0;
     m_ctx_dispatch();
 }
 
+static int threaded;
 static void on_alarm(int sig) { failed = 0; fail("core-hang", "program did not finish within 20 s (blocked or looping)"); }
 
 static int gw_run(const int *prog, int n) {
     P = prog; PN = n; cursor = 0; depth = 0; failed = 0; last_ret = 0; double_close = 0;
     long base = vp_outstanding;
-    memset(H, 0, sizeof H); memset(PAY, 0, sizeof PAY);
+    memset(H, 0, sizeof H); memset(PAY, 0, sizeof PAY); memset(hcnt, 0, sizeof hcnt); nheld = 0;
     vp_watch_reset();
     memset(fd_lib, 0, sizeof fd_lib);
     errno_to_leave = 0;
     for (int k2 = 1; k2 <= NKEY; k2++) { ufd_r[k2] = ufd_w[k2] = -1; if (k2 <= nkeys) ufd_open(k2); }
     cur_state = gw_edges[prog[0]].src;
     in_program = 1;
-    alarm(20);
+    if (!threaded) alarm(20);
     if (setup_name[0]) {
         failed = 1;          /* callbacks during the set-up are not part of the program */
         do_setup();
@@ -590,7 +677,8 @@ static int gw_run(const int *prog, int n) {
     } else {
         /* not clean (only when no completion exists): release what we can */
         if (m_ctx_name()) { for (int i = 0; i < nmods; i++) if (H[i] && m_mod_state(H[i]) != M_MOD_ZOMBIE) m_mod_deregister(&H[i]); if (m_ctx_name()) m_ctx_deregister(); }
-        for (int i = 0; i < nmods; i++) if (H[i]) { m_mem_unref(H[i]); H[i] = NULL; }
+        for (int i = 0; i < nmods; i++) for (; H[i] && hcnt[i] > 0; hcnt[i]--) m_mem_unref(H[i]);
+        for (int q = 0; q < nheld; q++) m_mem_unref(HELD[q]);
         vp_outstanding = base;
     }
     if (double_close) { gw_mismatch(prog, n, n - 1, "core-bad-close", "close() failed %d times (double close / not owned)", double_close); if (gw_forked) gw_resume_exit(); return 1; }
@@ -633,6 +721,37 @@ static void parse_kv(const char *env, char *dstp, size_t w) {
     }
 }
 
+/* ---- C14: several threads, each with its own context, replay programs of the graph at the same time ----
+ * Every thread checks its own observations against the spec exactly as in the single-threaded replay (what one context observes
+ * does not depend on the others); built with TSan this run is also the observer of unsynchronised accesses to shared library state. */
+typedef struct { int first, count, failed_n; } targ_t;
+static void *thread_main(void *arg) {
+    targ_t *t = arg;
+    for (int i = t->first; i < t->first + t->count; i++) if (gw_run(gw_coll[i], gw_coll_len[i])) t->failed_n++;
+    return NULL;
+}
+static int threads_main(int argc, char **argv) {
+    if (argc < 9 || gw_load(argv[1])) return 2;
+    gw_replay_dir = argv[2]; gw_tag = argv[3];
+    int T = atoi(getenv("VP_THREADS"));
+    uint64_t walks = strtoull(argv[6], NULL, 10);
+    int L = atoi(argv[7]);
+    unsigned seed = (unsigned)strtoul(argv[8], NULL, 10);
+    gw_coll_cap = (int)walks; gw_coll = calloc(walks + 1, sizeof(int *)); gw_coll_len = calloc(walks + 1, sizeof(int));
+    gw_walks(walks, L, seed);
+    gw_coll_cap = 0;
+    threaded = 1;
+    pthread_t th[32]; targ_t ta[32];
+    int per = gw_ncoll / T;
+    for (int i = 0; i < T; i++) { ta[i].first = i * per; ta[i].count = per; ta[i].failed_n = 0; pthread_create(&th[i], NULL, thread_main, &ta[i]); }
+    int bad = 0; uint64_t steps = 0;
+    for (int i = 0; i < T; i++) { pthread_join(th[i], NULL); bad += ta[i].failed_n; }
+    for (int i = 0; i < per * T; i++) steps += gw_coll_len[i];
+    printf("STATS {\"programs\": %d, \"steps\": %llu, \"distinct\": %d, \"nontrivial\": %d, \"mismatches\": %d, \"edges\": %d, \"edges_covered\": 0, \"states\": %d, \"paths_complete\": false, \"threads\": %d}\n",
+           per * T, (unsigned long long)steps, per * T, per * T, bad, gw_nedges, gw_nstates, T);
+    return bad ? 1 : 0;
+}
+
 int main(int argc, char **argv) {
     const char *ms = getenv("VP_MODS") ? getenv("VP_MODS") : "A,B";
     for (const char *c = ms; *c; c++) if (*c != ',') { LN[nmods][0] = *c; LN[nmods][1] = 0; nmods++; }
@@ -648,5 +767,6 @@ int main(int argc, char **argv) {
     measure_order();
     gw_need_terminal = 1;
     gw_target_fn = is_clean;
+    if (getenv("VP_THREADS")) return threads_main(argc, argv);
     return gw_main(argc, argv);
 }
